@@ -45,11 +45,11 @@ variable (ν φ : String → Nat)
 theorem setHeadPos_abs (k : Key) (p : Nat) (vm vm' : VM) (hw : WF vm) (hro : NameRO k.1 p) (h : setHeadPos k p vm = .ok () vm') :
     absVM ν φ vm' = absVM ν φ vm ∧ WF vm' := by
   obtain ⟨b1, b2, b3⟩ := setHeadPos_frame k p vm vm' hro h
-  refine ⟨absVM_of_same ν φ vm vm' b2 (by rw [b1]) (by rw [b1]), ?_, ?_, ?_, ?_⟩
-  · intro k a hk; rw [b1] at hk; exact hw.a k a hk
-  · unfold WFI; rw [b3, b1]; exact hw.i
-  · intro k a hk; rw [b1] at hk; exact hw.g k a hk
-  · intro k x hk; rw [b1] at hk; exact hw.n k x hk
+  refine ⟨absVM_of_same ν φ vm vm' b2 b1.1 b1.2, ?_, ?_, ?_, ?_⟩
+  · intro k a hk; rw [b1.2] at hk; exact hw.a k a hk
+  · unfold WFI; rw [b3, b1.1]; exact hw.i
+  · intro k a hk; rw [b1.2] at hk; exact hw.g k a hk
+  · intro k x hk; rw [b1.1] at hk; exact hw.n k x hk
 
 /-- **the `start_new_flow_instance` label IS `Lifetime.labelRestart`** (up to the queue, which `absVM` does not abstract) -/
 theorem corevm_label_is_op (hν : Function.Injective ν) (f : FUid) (h : HUid) (pos : Nat) (vm vm' : VM) (hw : WF vm)
